@@ -127,7 +127,7 @@ func genGeom(t *rapid.T, layouts []geom.Layout, depth int, floats int) *model.G 
 	if floats&gen.Infs != 0 { // every mode but bbox: GeoJSON cannot carry a LinearRing
 		kinds = append([]string{model.LinearRing}, gen.AllKinds...)
 	}
-	return gen.Tree(t, gen.TreeOpts{Layouts: layouts, Kinds: kinds, Floats: floats, MaxDepth: depth, MixLayouts: true, MaxParts: 3, MaxPts: 4, PEmpty: 25})
+	return gen.Tree(t, gen.TreeOpts{Layouts: layouts, Kinds: kinds, Floats: floats, MaxDepth: depth, MixLayouts: true, MaxParts: 3, MaxPts: 4, PEmpty: 25, LongPct: 1})
 }
 
 func genBox(t *rapid.T, label string) Box {
